@@ -103,20 +103,44 @@ func DeclaredBinary(in []byte) uint64 {
 // as "consistently declares more than MaxDeclared" (DeclaredBinary, which looks at every
 // offset, only loosens the allocation bound).
 func DeclaredBinarySeq(in []byte) uint64 {
+	// The walk advances by what the parser consumes for the opcode, not by the total body the
+	// header declares: the two differ for frames whose extras length is not what the command's
+	// fixed format has (a set-family frame always has its 8 bytes of flags and expiry read, a
+	// touch its 4, a get only its key).
 	var sum uint64
 	off := 0
 	for off+24 <= len(in) && in[off] == 0x80 {
+		op := in[off+1]
 		kl := uint64(binary.BigEndian.Uint16(in[off+2 : off+4]))
 		el := uint64(in[off+4])
 		total := uint64(binary.BigEndian.Uint32(in[off+8 : off+12]))
-		if kl+el > total {
+		var consumed uint64
+		switch op {
+		case 0x01, 0x02, 0x03, 0x11, 0x12, 0x13: // set family
+			if kl+el > total {
+				return sum
+			}
+			sum += total
+			consumed = total - el + 8
+		case 0x0e, 0x0f, 0x19, 0x1a: // append / prepend
+			if kl+el > total {
+				return sum
+			}
+			sum += total
+			consumed = total
+		case 0x00, 0x09, 0x40, 0x41, 0x04: // get family, delete
+			sum += kl
+			consumed = kl
+		case 0x1c, 0x1d: // touch, gat
+			sum += kl
+			consumed = 4 + kl
+		default: // noop, quit, version, stat; unknown opcodes are answered and parsing goes on
+			consumed = 0
+		}
+		if consumed > uint64(len(in)) {
 			break
 		}
-		sum += total
-		if total > uint64(len(in)) {
-			break
-		}
-		off += 24 + int(total)
+		off += 24 + int(consumed)
 	}
 	return sum
 }
@@ -167,9 +191,6 @@ func Check(bin bool, in []byte, step int) (res Result) {
 	if bin {
 		declared = DeclaredBinary(in)
 		seq = DeclaredBinarySeq(in)
-		if m := DeclaredBinaryMax(in); m > seq {
-			seq = m
-		}
 		if declared > 16<<20 {
 			declared = 16 << 20 // phantom headers inside keys / opaques only loosen the bound so far
 		}
